@@ -168,6 +168,139 @@ def check_partition(ck, prog, fn):
     return name, comps, node
 
 
+def flat_minmax(v, kind):
+    """Leaves of a (nested) MIN / MAX term, or None."""
+    if not isinstance(v, _Sym):
+        return None
+    at = v.as_atom()
+    if at is not None and at[0] == 'f' and at[1] == kind:
+        out = set()
+        for a in at[2]:
+            sub = flat_minmax(a, kind)
+            out |= sub if sub is not None else {a}
+        return out
+    return {v}
+
+
+def semantic_constructor(ck, prog, cls, fn, why):
+    """The constructor run on a list of two symbolic boxes - the box B under study and a second
+    box C whose only role is to make the split point an arbitrary number - for every order type
+    of B relative to the split point.  What is read off is independent of how the code is
+    written (comprehensions, append loops, helper predicates, tables of lambdas, value classes):
+    D1 B is stored unchanged in the node itself or in at least one child list, and nothing but the
+    given entries is stored; D2 the extent fields are the MIN / MAX of the own coordinate over
+    both boxes; D4 a node without children keeps all its boxes; D5 children are built only when
+    every child list is strictly shorter than the node."""
+    from ..poly import mk_func
+    elem_b = Tup((Sym.var('id'), box_value('')))
+    elem_c = Tup((Sym.var('idc'), box_value('c')))
+    bboxes = Tup((elem_b, elem_c), 'list')
+    V_ = Sym.var
+    cx = (V_('xlo') / 2 + V_('xhi') / 2) / 2 + (V_('cxlo') / 2 + V_('cxhi') / 2) / 2
+    cy = (V_('ylo') / 2 + V_('yhi') / 2) / 2 + (V_('cylo') / 2 + V_('cyhi') / 2) / 2
+    tx = {'lo': V_('xlo'), 'hi': V_('xhi'), 'c': cx}
+    ty = {'lo': V_('ylo'), 'hi': V_('yhi'), 'c': cy}
+    others = [V_('c' + r) for r in ROLES]
+    axis = list(weak_orderings(['lo', 'hi', 'c'], [('lo', '<=', 'hi')]))
+
+    class Case(OrderCase):
+        foreign = None
+
+        def decide(self, cond, st):
+            r = OrderCase.decide(self, cond, st)
+            if r is None and isinstance(cond, Cmp) and isinstance(cond.a, _Sym) and \
+                    isinstance(cond.b, _Sym):
+                # a test of the second box against the split point: both outcomes are possible
+                # and both are explored; anything else undecided is a test this case analysis
+                # does not understand
+                self.undecided.pop()
+                d = cond.a - cond.b
+                if not any((d + c_ - o).is_const() or (d - c_ + o).is_const() or
+                           (d + c_ + o).is_const() or (d - c_ - o).is_const()
+                           for c_ in (cx, cy) for o in others):
+                    self.foreign = cond
+            return r
+    n_cases = n_paths = 0
+    sample = None
+    for rx in axis:
+        for ry in axis:
+            case = Case([(tx, rx), (ty, ry)])
+            it = Interp(prog, case, max_paths=4000)
+            it.self_cls = cls
+            outs = it.run(fn, [bboxes], self_obj=ObjRef('self', cls))
+            desc = 'x: %s | y: %s' % (describe(rx), describe(ry))
+            if case.foreign is not None:
+                raise AnalysisError('%s (%s); on two symbolic boxes the constructor tests %r, '
+                                    'which is not a comparison of a box coordinate with the split '
+                                    'point' % (fn.qualname, why, case.foreign))
+            n_cases += 1
+            for o in outs:
+                n_paths += 1
+                if o.kind == 'raise':
+                    ck.ob('C14-D1-partition', 'constructor[%s]' % desc, False,
+                          'the constructor raises %s for two boxes with order type [%s]'
+                          % (o.value, desc), fn.loc(), key='Index.__init__::raises')
+                    continue
+                f = o.state.fields
+                kept = f.get(('self', 'bboxes'))
+                subs = f.get(('self', 'subtrees'))
+                kept_items = list(kept.items) if isinstance(kept, Tup) else []
+                child_lists = []
+                bad_child = None
+                for ch in (subs.items if isinstance(subs, Tup) else ()):
+                    if isinstance(ch, Opaque) and ch.label.startswith('new:') and ch.args and \
+                            isinstance(ch.args[0], Tup):
+                        child_lists.append(list(ch.args[0].items))
+                    else:
+                        bad_child = ch
+                if bad_child is not None or (subs is not None and not isinstance(subs, Tup)) or \
+                        (kept is not None and not isinstance(kept, Tup)):
+                    raise AnalysisError('%s (%s); the stores of the node are not lists of entries '
+                                        '/ of child nodes built from lists: %r / %r'
+                                        % (fn.qualname, why, kept, subs))
+                stored = kept_items + [e for l in child_lists for e in l]
+                foreign = [e for e in stored if e not in (elem_b, elem_c)]
+                ck.ob('C14-D1-partition', 'entries-unchanged[%s]' % desc, not foreign,
+                      'the node stores %r, which is not one of the (id, box) entries it was given'
+                      % (foreign[:1],), fn.loc(), key='Index.__init__::filter-element')
+                covered = elem_b in kept_items or any(elem_b in l for l in child_lists)
+                ck.ob('C14-D1-partition', 'cover[%s]' % desc, covered,
+                      'a box with order type [%s] relative to the split point is stored neither in '
+                      'the node nor in any child list: it can never be returned' % desc, fn.loc(),
+                      key='Index.__init__::partition-cover')
+                if child_lists:
+                    ck.ob('C14-D5-termination', 'children-shrink[%s]' % desc,
+                          all(len(l) < 2 for l in child_lists),
+                          'children are built although a child list holds all %d boxes of the node '
+                          '(no strictly decreasing measure: construction may not terminate)' % 2,
+                          fn.loc(), key='Index.__init__::recursion-guard')
+                else:
+                    ck.ob('C14-D4-both-stores', 'leaf-keeps-all[%s]' % desc,
+                          kept_items == [elem_b, elem_c] or sorted(map(repr, kept_items)) ==
+                          sorted(map(repr, [elem_b, elem_c])),
+                          'a node without children keeps %d of its 2 boxes' % len(kept_items),
+                          fn.loc(), key='Index.__init__::leaf-store')
+                want = {'xmin': ('MIN', 'xlo'), 'ymin': ('MIN', 'ylo'), 'xmax': ('MAX', 'xhi'),
+                        'ymax': ('MAX', 'yhi')}
+                for fld, (kind, role) in want.items():
+                    got = flat_minmax(f.get(('self', fld)), kind)
+                    inf = V_('INF') if kind == 'MIN' else -V_('INF')
+                    need = {V_(role), V_('c' + role)}
+                    ck.ob('C14-D2-extent', 'fold::%s[%s]' % (fld, desc),
+                          got is not None and got - {inf} == need,
+                          'for two boxes the extent field %s is %r; it must be the %s of %s over '
+                          'both boxes (a true bound of every stored box is needed for pruning to '
+                          'be safe)' % (fld, f.get(('self', fld)), kind, role), fn.loc(),
+                          key='Index.__init__::extent-fold')
+                if sample is None:
+                    sample = {'order_type': desc, 'children': [len(l) for l in child_lists],
+                              'kept': len(kept_items)}
+    ck.floor('constructor order types (two symbolic boxes)', n_cases, 49)
+    ck.saw('constructor_semantic', {'reason': why, 'order_types': n_cases, 'paths': n_paths})
+    if sample:
+        ck.sample(sample)
+
+
 def check_extent_fold(ck, prog, fn, cls):
     """D2: the loop over all boxes folds each extent field with min/max of its own coordinate,
     starting from +inf/-inf."""
@@ -248,6 +381,21 @@ def check_intersection(ck, prog, fn, cls, tier):
             leaf = lp
         elif v == Opaque('self.subtrees', (), 'list'):
             sub = lp
+    if leaf is None or sub is None:
+        # a loop-free body is only evidence of a missing traversal when nothing else in it can
+        # traverse: a call of another method / helper with the stores, or a comprehension over
+        # them, is a different way of writing the same thing and is not judged here
+        elsewhere = [n for n in ast.walk(fn.node)
+                     if isinstance(n, (ast.ListComp, ast.SetComp, ast.GeneratorExp, ast.DictComp))
+                     or (isinstance(n, ast.Call) and isinstance(n.func, ast.Attribute)
+                         and isinstance(n.func.value, ast.Name) and n.func.value.id == 'self'
+                         and cls.lookup(n.func.attr) is not None
+                         and cls.lookup(n.func.attr) is not fn)]
+        if elsewhere:
+            raise AnalysisError('intersection() does not iterate its stores in top-level loops '
+                                '(it delegates to %s at line %d); the overlap rules read those '
+                                'loops and cannot conclude' % (
+                                    ast.unparse(elsewhere[0])[:40], elsewhere[0].lineno))
     ck.ob('C14-D4-both-stores', 'intersection::leaf-loop', leaf is not None,
           'intersection() has no top-level loop over all of self.bboxes', fn.loc(),
           key='Index.intersection::leaf-loop')
@@ -574,10 +722,26 @@ def run(ck, prog, tier):
     from .. import purity
     n_own = purity.check_ownership(ck, f_int, 'C14-D4-result-ownership')
     ck.floor('in-place updated result containers', n_own, 1)
-    name, comps, node = check_partition(ck, prog, f_init)
-    check_extent_fold(ck, prog, f_init, cls)
+    syntactic = True
+    n_before = len(ck.violations)
+    try:
+        name, comps, node = check_partition(ck, prog, f_init)
+        check_extent_fold(ck, prog, f_init, cls)
+    except AnalysisError as exc:
+        if len(ck.violations) != n_before:
+            raise
+        # the constructor is not written as four filter comprehensions after an extent loop:
+        # decide the same facts from its behaviour on two symbolic boxes
+        syntactic = False
+        semantic_constructor(ck, prog, cls, f_init, str(exc))
     check_intersection(ck, prog, f_int, cls, tier)
-    check_structure(ck, prog, f_init, cls, name, comps, node)
+    if syntactic:
+        try:
+            check_structure(ck, prog, f_init, cls, name, comps, node)
+        except AnalysisError as exc:
+            if len(ck.violations) != n_before:
+                raise
+            semantic_constructor(ck, prog, cls, f_init, str(exc))
     mutable, n = shared_state(ck, cls, 'C14-D6-shared-state', 'Index.')
     ck.ob('C14-D6-shared-state', 'Index::class-level-mutables-never-mutated', True)
     ck.extra['class_level_mutables'] = mutable
